@@ -812,6 +812,11 @@ def complex_cases(rng, tier):
         add("where", "%s branches, one broadcast" % dn, (lambda m, a, b: m.where(onp.array([True, False, True]), a, b)), [zs, ws[0]], [0, 1], True)
         add("sum", "%s axis=0" % dn, (lambda m, a: m.sum(a, axis=0)), [zs], [0], True)
         add("conj", "%s" % dn, (lambda m, a: m.conj(a) * (1 + 2j)), [zs], [0], True)
+    add("diagonal", "complex, last two axes", (lambda m, a: m.diagonal(a, 0, -1, -2) * (1.0 + 2.0j)), [z23[:, :2]], [0], True)
+    add("diagonal", "complex non-square, last two axes", (lambda m, a: m.diagonal(a, 0, -1, -2)), [z23], [0], True)
+    add("diag", "complex matrix", (lambda m, a: m.diag(a)), [z23], [0], True)
+    add("diag", "complex vector", (lambda m, a: m.diag(a)), [z3], [0], True)
+    add("tril", "complex", (lambda m, a: m.tril(a)), [z23], [0], True)
     add("trace", "complex", (lambda m, a: m.trace(a)), [cm], [0], False)
     add("matmul", "complex chain", (lambda m, a, b: m.matmul(m.matmul(a, b), m.conj(a))), [cm, cb], [0, 1], False)
     # real -> complex -> real composite gets a real gradient equal to the purely real one
